@@ -8,11 +8,12 @@ from syntax import val_sexp
 
 
 class Case:
-    __slots__ = ("decl", "k", "op", "arg", "impl", "model", "oracle", "spec", "spec_arg")
+    __slots__ = ("decl", "k", "op", "arg", "impl", "model", "oracle", "spec", "spec_arg", "extra")
 
     def __init__(self, decl, k, op, arg, spec_arg=None):
         self.decl, self.k, self.op, self.arg = decl, k, op, arg
         self.impl = self.model = self.oracle = self.spec = None
+        self.extra = []
         self.spec_arg = spec_arg      # raw value on which the L3 specification is evaluated
 
     @property
@@ -71,7 +72,8 @@ class GuardRun:
         for c in self.cases:
             r = out.get(c.cid)
             if r is not None and " ## " in r:
-                r, _, c.oracle = r.partition(" ## ")
+                parts = r.split(" ## ")
+                r, c.oracle, c.extra = parts[0], parts[1], parts[2:]
             c.impl = r
         self.stats["impl_s"] = round(time.time() - t0, 1)
 
